@@ -202,8 +202,8 @@ Print Assumptions c20_sync_removable_not_promoted.
 Example c20_example_promo :
   let c := {| delete_checkpoints := true; remove_callback := false; speculative := false |} in
   run promo_sched c (init promo0)
-      [ {| reports := []; completed := []; failed := []; sugg := [None; None]; spec_choice := [] |};
-        {| reports := [(0%Z, PAUSE); (1%Z, STOP)]; completed := []; failed := []; sugg := [Some 0%Z]; spec_choice := [] |} ]
+      [ {| reports := []; completed := []; failed := []; hold := false; sugg := [None; None]; spec_choice := [] |};
+        {| reports := [(0%Z, PAUSE); (1%Z, STOP)]; completed := []; failed := []; hold := false; sugg := [Some 0%Z]; spec_choice := [] |} ]
   = [EStart 0 None; ESchedule 0; EStart 1 None; ESchedule 1; EDecision 0 PAUSE; EPause 0; EDecision 1 STOP; EStop 1;
      EDelete 1 WStop; EResume 0; ESchedule 0; EStopAll; EStop 0; EDelete 0 WStopAll; EDelete 0 WStopAll; EDelete 1 WStopAll].
 Proof. vm_compute. reflexivity. Qed.
